@@ -202,6 +202,38 @@ func RunC20(c *mc.Ctx) {
 		})
 	}
 
+	// ---- bloom: two filters, each used by its own goroutine.  The statement's data-race freedom is
+	// about executions, and the per-filter mutex protects only what belongs to one filter: state the
+	// package shares between ALL filters (a scratch buffer, a pool, a table filled lazily) is reached
+	// under two different locks.  Every unordered pair of 1-op programs over the full alphabet, and
+	// (thorough: every, quick: chosen) pairs of 2-op programs.
+	{
+		p1 := programs(BloomOps, 1)
+		var tf []*BloomConfig
+		for i := range p1 {
+			for j := range p1 { // ordered: the two filters have different items
+				tf = append(tf, &BloomConfig{Geom: "8x2", Filters: 2, Progs: [][]string{p1[i], p1[j]}})
+			}
+		}
+		wsub := []string{"Add:y", "AddHash", "AddOutPoint", "MatchesOutPoint", "MatchTx", "Reload"}
+		p2 := programs(wsub, 2)[len(wsub):]
+		if !c.Thorough() {
+			p2 = [][]string{{"AddOutPoint", "MatchesOutPoint"}, {"Add:y", "Matches:y"}, {"AddHash", "MatchTx"}, {"Reload", "AddOutPoint"}, {"MatchTx", "MatchesOutPoint"}}
+		}
+		for i := range p2 {
+			for j := range p2 {
+				tf = append(tf, &BloomConfig{Geom: "8x2", Filters: 2, Progs: [][]string{p2[i], p2[j]}})
+			}
+		}
+		if onlyBig {
+			tf = nil
+		}
+		c.Space("bloom: two filters, one goroutine each (package-level state shared between filters)", int64(len(tf)))
+		c.ParFor(int64(len(tf)), func(w *mc.W, i int64) {
+			exploreCase(c, w, c20Case{Kind: "bloom", Bloom: tf[i], Bound: mc.Pick(c, 1, 2)}, 200000)
+		})
+	}
+
 	// ---- gcs
 	gp := programs(GCSOps, 1)
 	var gpairs []pair
